@@ -56,7 +56,7 @@ META = {
     "technique": "abstract interpretation over index spaces/orderings (permutation algebra) and over (row space, column space, "
                  "signedness) of sparse expressions; cross-module convention agreement for the Kronecker numbering",
 }
-MIN_INSTANCES = {"R1": 5, "R2": 8, "R3": 6, "R4": 11, "R5": 5, "R6": 12, "R7": 9}
+MIN_INSTANCES = {"R1": 5, "R2": 8, "R3": 6, "R4": 11, "R5": 5, "R6": 13, "R7": 9}
 
 FIND_LIKE = {"sparse_array_to_row_col_data", "find"}
 
@@ -904,6 +904,20 @@ def rule_tag_tables(ctx: Ctx, mod, tmod) -> None:
         fn = mod.func(gcls + meth)
         ctx.check("R6", bool(_calls_in(fn, lst)) and size in u(fn) and ("num_nodes" if size == "num_faces" else "num_faces") not in u(fn),
                   mod, gcls + meth, fn, f"{meth} creates one array of {size} entries per key of {lst}()", construct=f"{meth}: keys and size")
+    # internal faces = complement of ALL one-cell faces (domain boundary + fracture + tip), not of the domain boundary only
+    q = gcls + "get_internal_faces"
+    fn = mod.func(q)
+    used = [call_name(c) for c in ast.walk(fn) if isinstance(c, ast.Call) and call_name(c) in
+            ("get_all_boundary_faces", "get_boundary_faces", "get_all_boundary_nodes", "get_boundary_nodes", "all_face_tags", "all_node_tags")]
+    if not used:
+        if "tags" in u(fn):
+            raise Undecided(f"{GRID}:{q}: boundary faces obtained in a form that is not recognised")
+        raise AnchorError(f"{GRID}:{q}: no boundary-face accessor used")
+    ctx.check("R6", set(used) <= {"get_all_boundary_faces", "all_face_tags"} and "num_faces" in u(fn), mod, q, fn,
+              f"internal faces are the faces with two neighbouring cells, i.e. the complement of ALL boundary-type faces "
+              f"(get_all_boundary_faces: domain boundary, fracture and tip); found complement of {sorted(set(used))} "
+              f"(invisible on grids without fractures)", construct="get_internal_faces: complement of all boundary faces",
+              facts={"accessors": sorted(set(used))})
     # face tag -> node tag map
     q = gcls + "update_boundary_node_tag"
     fn = mod.func(q)
@@ -989,6 +1003,10 @@ def run(ctx: Ctx) -> None:
     rule_boundary_face_tag(ctx, mod)
     rule_tag_tables(ctx, mod, tmod)
     if ctx.tier == "thorough":
+        gin = mod.get("Grid.get_internal_nodes")
+        if gin is not None and any(isinstance(c, ast.Call) and call_name(c) == "get_boundary_nodes" for c in ast.walk(gin)):
+            ctx.note("observation (not a finding): the deprecated Grid.get_internal_nodes complements the DOMAIN-boundary nodes only "
+                     "(fracture and tip nodes count as internal), unlike its face sibling get_internal_faces")
         for m in ctx.repo.modules("src/porepy"):
             for n in ast.walk(m.tree):
                 if isinstance(n, ast.Call) and call_name(n) == "signs_and_cells_of_boundary_faces" and m.rel != GRID:
@@ -1037,6 +1055,8 @@ MUTANTS = [
     _m("signs-negated-on-return", "        sgn, ci = sgn[IC], ci[IC]\n        return sgn, ci", "        sgn, ci = sgn[IC], ci[IC]\n        return -sgn, ci", "R2"),
     _m("cell-nodes-needs-two-faces", "mat = (self.face_nodes @ np.abs(self.cell_faces)) > 0", "mat = (self.face_nodes @ np.abs(self.cell_faces)) > 1", "R3"),
     _m("boundary-faces-set-false", '            self.tags["domain_boundary_faces"][bd_faces] = True', '            self.tags["domain_boundary_faces"][bd_faces] = False', "R5"),
+    _m("seed-internal-faces-complement-of-domain-boundary", "np.arange(self.num_faces), self.get_all_boundary_faces(), assume_unique=True",
+       "np.arange(self.num_faces), self.get_boundary_faces(), assume_unique=True", "R6"),
     # ---- R7 memoisation
     _m("connection-map-lru-cached", "    def cell_connection_map(self) -> sps.csr_matrix:", "    @lru_cache\n    def cell_connection_map(self) -> sps.csr_matrix:", "R7"),
     _m("boundary-faces-kept-on-self", "        return self._indices(tags.all_face_tags(self.tags))",
